@@ -37,7 +37,7 @@ Definition ofOpt {A} (f : A -> val) (o : option A) : val :=
 Definition ofPair {A B} (f : A -> val) (g : B -> val) (p : A * B) : val := VL [f (fst p); g (snd p)].
 
 (* error value: a decoder failed (malformed case); the harness treats it as a harness bug *)
-Definition VErr : val := VL [VNone; VNone; VNone].
+Definition VErr : val := VL [VZ (-7777777); VNone; VZ (-7777777); VB false].
 
 Definition bind {A B} (o : option A) (f : A -> option B) : option B :=
   match o with Some x => f x | None => None end.
